@@ -73,6 +73,17 @@ func (w WLCase) build() (*spg.WLRecipe, error) {
 			}
 			return p.String(), 0
 		}
+	case "customMixed":
+		// a caller-written separator function that returns nothing or a
+		// hyphen, one bit of entropy
+		cr := spg.CharRecipe{Length: 1, AllowChars: "x-"}
+		r.SeparatorFunc = func() (string, spg.FloatE) {
+			p, err := cr.Generate()
+			if err != nil || p.String() == "x" {
+				return "", 1
+			}
+			return "-", 1
+		}
 	default:
 		f, ok := presetFuncs[w.Sep.Kind]
 		if !ok {
@@ -95,6 +106,8 @@ func (w WLCase) sepModel() (vals []string, entropy float64, retry bool) {
 		return []string{w.Sep.Char}, 0, false
 	case "SFNone":
 		return []string{""}, 0, false
+	case "customMixed":
+		return []string{"-", ""}, 1, false
 	case "sf", "custom0":
 		cr = w.Sep.Recipe
 	default:
@@ -285,6 +298,8 @@ func (w WLCase) entropyModel() float64 {
 	_, se, _ := w.sepModel()
 	if w.Sep.Kind == "custom0" {
 		se = 0
+	} else if w.Sep.Kind == "customMixed" {
+		se = 1
 	} else if w.Sep.Kind == "sf" || presetModel[w.Sep.Kind].Length > 0 {
 		// separator functions report the entropy of their own recipe
 		var cr ref.CharRecipe
@@ -314,6 +329,10 @@ var wlLists = [][]string{
 	{"éa", "Éa", "b"},
 	{"x-y", "ab"},
 	{"ab", "ab", "cd", "ab"},
+	// title-casing corner cases: underscore, apostrophes, inner separators,
+	// combining marks, non-decimal digits, a digraph with its own title case
+	{"snake_case", "l’eau", "m²x"},
+	{"re\u0301sume\u0301", "o'neil", "new-york", "ǆungla"},
 }
 
 var wlSchemes = []string{"none", "first", "all", "one", "random"}
@@ -333,6 +352,7 @@ func wlSeps() []Sep {
 		// refused by Generate (1 of 13 characters satisfies it... p = 3/33) yet Entropy() > 0: separator is "" and must count 0 bits
 		{Kind: "sf", Recipe: &ref.CharRecipe{Length: 1, AllowChars: "abcdefghijklmnopqrstuvwxyzABCD", RequireSets: []string{"123"}}},
 		{Kind: "custom0", Recipe: &ref.CharRecipe{Length: 1, AllowChars: "xy"}},
+		{Kind: "customMixed"},
 	}
 }
 
